@@ -306,7 +306,8 @@ def run_generic(run, prop, cases, cmd, model, pr, simplify, model_desc, replay_c
     round instead of one per deleted token), judge.  Returns (cases, I, R, S)."""
     env = C.lib_env("asan")
     D = C.Differential(run, prop, cmd, model, env, view=strip_texts, signatures=SIGNATURES, keep_first=3,
-                       model_desc=model_desc, jobs=min(C.NPROC, 8), impl_timeout=1500)
+                       model_desc=model_desc, jobs=min(C.NPROC, 8 if len(cases) < 1000 else 16),
+                       impl_timeout=1500 if len(cases) < 1000 else 12000)
     I, R, S = D.eval(cases)
     failing = [i for i in range(len(cases)) if D.fails_spec(I[i], S[i])]
     seen_small = set()
@@ -347,7 +348,7 @@ def run(run, tier, seed, replay_case=None):
     if tier == "quick":
         cases = list(corpus) + random.Random(seed).sample(ex, 80) + [gen_case(rng, tier) for _ in range(260)]
     else:
-        cases = list(corpus) + ex + [gen_case(rng, tier) for _ in range(3000)]
+        cases = list(corpus) + ex + [gen_case(rng, tier) for _ in range(2000)]
     if replay_case is not None:
         cases = [replay_case]
     cases, I, R, S = run_generic(run, PROP, cases, cmd, model, pr, simplifications,
